@@ -70,6 +70,7 @@ class Env:
         self.on_fault = None
         self.faults_enabled = True
         self.op_ticks = {}
+        self.seam_violations = []
 
     def begin(self, opi):
         self.op = opi
@@ -157,14 +158,29 @@ def seams(env):
     def wrap(orig):
         def factory(*a, **k):
             inner = orig(*a, **k)
+            rejected = set()  # block pairs for which this solver raised the shared-eigenvalue error
 
             def solve_sylvester(Y, index):
                 env.tick("S", tuple(int(i) for i in index))
-                return inner(Y, index)
+                pair = (int(index[0]), int(index[1]))
+                try:
+                    result = inner(Y, index)
+                except ValueError as e:
+                    if "share eigenvalues" in str(e):
+                        rejected.add(pair)
+                    raise
+                if pair in rejected and not (Y is env_zero()):
+                    env.seam_violations.append(f"the Sylvester solver rejected block pair {pair} (shared eigenvalues) and later accepted a non-zero right-hand side for the same pair")
+                return result
 
             return solve_sylvester
 
         return factory
+
+    def env_zero():
+        from pymablock.series import zero
+
+        return zero
 
     eigsh = sla.eigsh
 
@@ -348,6 +364,8 @@ class Inputs:
                 e[int(self.offs[w["illposed"]])] = e[0]
             if w.get("sectors") and nb >= 3:
                 e[int(self.offs[2])] = e[0]
+            if w.get("zero_level") and nb >= 2:
+                e[: int(self.offs[1])] = 0.0  # the whole first block sits at zero energy: its H_0 block vanishes identically
             if not w["herm"] and w.get("complex_e"):
                 e = e + 1j * rg.uniform(-0.3, 0.3, size=N)
             self.e = e
@@ -1093,6 +1111,8 @@ class GraphProp:
                             if cnt > 1:
                                 fail("term-evaluated-twice", f"after op#{opi} {op}: Hamiltonian term {key} evaluated {cnt} times")
                                 break
+                    if env.seam_violations:
+                        fail("solver-verdict-history-dependent", f"op#{opi} {op}: {env.seam_violations[0]}")
                     if env.poison_touched:
                         key, order = env.poison_touched[0]
                         fail("poisoned-term-touched", f"op#{opi} {op}: term {key} (order {order}) outside the cone {env.poison} was evaluated")
@@ -1416,7 +1436,8 @@ class GraphProp:
              "p_zero_block": r.choice([0.0, 0.0, 0.3, 0.6]), "deg": r.random() < 0.25,
              "complex_e": r.random() < 0.4, "derived": r.random() < profile.get("p_derived", 0.5),
              "internals": r.random() < profile.get("p_internals", 0.5), "h_data": r.random() < 0.3,
-             "symbols": r.random() < 0.2, "dimnames": r.random() < 0.2, "interleave": r.random() < 0.4, "sectors": bool(nb >= 3 and domain in ("dense", "sparse") and r.random() < 0.25),
+             "symbols": r.random() < 0.2, "dimnames": r.random() < 0.2, "interleave": r.random() < 0.4,
+             "zero_level": bool(nb >= 2 and domain in ("dense", "sparse") and r.random() < 0.12), "sectors": bool(nb >= 3 and domain in ("dense", "sparse") and r.random() < 0.25),
              "cap": profile.get("max_total", {1: 4, 2: 3, 3: 2})[npert] if domain != "sym" else 3}
         if fmt == "scalar_vecs":
             w["real"] = False
@@ -1483,9 +1504,13 @@ class GraphProp:
                 spec["solver"] = "default"
                 spec["two_block_optimized"] = bool(nb == 2 and r.random() < 0.5)
                 spec["commuting_blocks"] = [r.random() < 0.6 for _ in range(nb)]
+        if w.get("zero_level"):
+            w["deg"] = False
+            w["complex_e"] = False
         if fmt == "implicit":
             w["cap"] = 3 if npert == 1 else 2
             w["sectors"] = False
+            w["zero_level"] = False
             w.pop("illposed", None)
             w["complex_e"] = False
             for spec in comps:
